@@ -6,7 +6,7 @@
    correspondence run (identity ledger on both sides, clone at every step, every later order). *)
 From Coq Require Import ZArith List Bool Lia.
 From MV Require Import Ast Eval Scalar Machine.
-From MV.Proofs Require Import Arith Logic Prim View OpsLocal Guards Grow CapHistory Core Refine Clone Extend CloneSlice.
+From MV.Proofs Require Import Arith Logic Prim View OpsLocal Guards Grow CapHistory Core Refine Clone Extend CloneSlice DrainIt IntoIt IntoClone.
 Import ListNotations.
 Open Scope Z_scope.
 
@@ -95,3 +95,32 @@ Theorem C12_extend_from_slice_clones_each_element_once :
                          (forall e, e < next_elem s -> ledger s' e = ledger s e)).
 Proof. exact extend_from_slice_abs. Qed.
 Print Assumptions C12_extend_from_slice_clones_each_element_once.
+
+(* IntoIter::clone at ANY point of the iterator's consumption (any cursor p, any number of elements
+   left): the clone is an IntoIter over a block of its own holding one NEW element per element the
+   original still holds, in order, with the sources' payloads (no block at all when nothing is left);
+   the original iterator keeps its block, its cursor and its elements; no pre-existing element is
+   touched.  (No element's Clone panics here; the panic post-condition covers a refused capacity: the
+   original's block is untouched.) *)
+Theorem C12_into_iter_clone_is_deep_and_independent :
+  forall cfg ncap, cfg_ok cfg -> policy_ok ncap -> needs_drop cfg = true ->
+  forall s it b bl off p w,
+  into_inv cfg s it b bl off p -> w <> i_vec it ->
+  NoDup (remaining bl p) ->
+  (forall e, In e (remaining bl p) -> e < next_elem s /\ ledger s e = Live /\ mem e (clone_panics s) = false) ->
+  let src := remaining bl p in
+  let n := List.length src in
+  post (into_clone cfg ncap it w s)
+    (fun it' s' =>
+       i_vec it' = w /\
+       into_inv cfg s' it b bl off p /\
+       ((n = O /\ vec_sentinel s' w /\ i_pos it' = PNull) \/
+        (exists bw blw offw, bw <> b /\ into_inv cfg s' it' bw blw offw 0 /\
+                             remaining blw 0 = zseq (next_elem s) n)) /\
+       next_elem s' = next_elem s + Z.of_nat n /\
+       (forall e, e < next_elem s -> ledger s' e = ledger s e /\ payload s' e = payload s e) /\
+       (forall j, (j < n)%nat -> ledger s' (next_elem s + Z.of_nat j) = Live /\
+                                 payload s' (next_elem s + Z.of_nat j) = payload s (nth j src 0)))
+    (fun s' => nth_error (heap s') b = Some bl).
+Proof. exact into_clone_spec. Qed.
+Print Assumptions C12_into_iter_clone_is_deep_and_independent.
